@@ -179,6 +179,7 @@ def run(chk):
                                'text': {'part': _t(rec['part']), 'url': _t(rec['raw']), 'cd': _t(rec['cd'])}})
         if not s['accepted']:
             chk.drifted('PathName.tla disagrees with wpull.path: %s' % describe(rec), None)
+    e2e_outside(chk, quick)
     if not chk.samples and recs:
         r = recs[0]
         chk.samples.append({'call': CALLS[r['cl']], 'config': r['cfg'], 'part': _t(r['part']), 'chosen': r.get('path')})
@@ -190,11 +191,79 @@ def run(chk):
     chk.extra['property_clauses'] = sorted(CLAUSES.values())
 
 
+# ------------------------------------------------------------------------------------------- whole crawls
+# Names reach the file system on other ways than PathNamer too (symbolic links of an FTP listing made with
+# --retr-symlinks=off, names from listings / Content-Disposition).  Whole crawls (the C09 executor: real application,
+# scripted hostile server) are run with the download directory two levels below an otherwise empty directory; whatever
+# exists there afterwards, next to the crawl's own directory, was created OUTSIDE the download directory.
+E2E_CASES = [
+    ('ftpsym', 'sl_escape'), ('ftpsym', 'sl_abs'), ('ftpsym', 'sl_ok'), ('ftplist', 'ls_names_weird'), ('ftplist', 'ml_names_weird'),
+    ('ftplist', 'ls_symlink_escape'), ('page', 'cd_garbage'), ('page', 'fn_long_component'),
+]
+
+
+def _e2e_child(ctx, cls, outer, conn):
+    try:
+        import tempfile
+        devnull = os.open(os.devnull, os.O_WRONLY)
+        os.dup2(devnull, 2)                       # the crawl's log output
+        os.close(devnull)
+        tempfile.tempdir = outer                  # the crawl's own directory is made here (mkdtemp of the C09 executor)
+        from drivers import errorflow as E, errorflow_gen as G
+        ln = b'lrwxrwxrwx 1 ftp ftp 5 Jan 01  2020 '
+        f = b'-rw-r--r-- 1 ftp ftp 3 Jan 01  2020 a.txt\r\n'
+        c = dict(mode='wire', ctx=ctx, cls=cls, seg='whole', site='none', kind='none')
+        if cls in ('sl_escape', 'sl_abs'):
+            j = E.job_of(dict(c, cls='sl_ok'))
+            name = b'../../../ESCAPED_REL' if cls == 'sl_escape' else os.path.join(outer, 'ESCAPED_ABS').encode()
+            j['listings'] = {'/sub/': ln + name + b' -> /etc/passwd\r\n' + f}
+        else:
+            j = E.job_of(c)
+        facts = E.run_ftp(j) if ctx.startswith('ftp') else E.run_http(j)
+        conn.send(('ok', facts.get('pipe'), facts.get('hang')))
+    except BaseException as e:     # noqa
+        conn.send(('exc', '%s: %s' % (type(e).__name__, e), 0))
+
+
+def e2e_outside(chk, quick):
+    import multiprocessing
+    import shutil
+    import tempfile
+    mp = multiprocessing.get_context('fork')
+    done = []
+    for ctx, cls in E2E_CASES:
+        outer = tempfile.mkdtemp(prefix='c15e2e_')
+        try:
+            a, b = mp.Pipe()
+            p = mp.Process(target=_e2e_child, args=(ctx, cls, outer, b))
+            p.start()
+            res = a.recv() if a.poll(120) else ('timeout', '', 0)
+            p.join(10)
+            if p.is_alive():
+                p.kill()
+            if res[0] != 'ok':
+                raise tlc.TLCError('whole-crawl case %s/%s did not run: %r' % (ctx, cls, res))
+            left = sorted(os.listdir(outer))
+            chk.validated(1)
+            chk.case(key=('e2e', ctx, cls), nontrivial=True)
+            done.append({'case': '%s/%s' % (ctx, cls), 'left_outside': left})
+            if left:
+                chk.violation({'clause': 'NothingOutsideDownloadDir', 'via': 'crawl', 'class': cls},
+                              'a crawl (%s/%s) created %s outside its download directory' % (ctx, cls, left),
+                              {'e2e': [ctx, cls]})
+        finally:
+            shutil.rmtree(outer, ignore_errors=True)
+    chk.extra['whole_crawl_cases'] = done
+
+
 def replay(chk, path):
     import tempfile
     import shutil
     from drivers import pathname_exec
     rp = json.load(open(path))['replay']
+    if 'e2e' in rp:
+        print('whole-crawl case %s: run ./check C15 (the case is part of every run)' % (rp['e2e'],))
+        return 0
     s = dict(rp['scenario'])
     s['url'] = rp['url']
     base = tempfile.mkdtemp(prefix='c15_')
